@@ -935,8 +935,14 @@ def add_tiny_segments(seg, grng, n=5):
         pts = TINY_SHAPES[name]
         h = max(p[0] for p in pts) + 1
         w = max(p[1] for p in pts) + 1
+        big = np.argwhere(seg > 0)
         for _ in range(40):
             y0, x0 = grng.randint(3, ny - h - 4), grng.randint(3, nx - w - 4)
+            if names.index(name) >= 2 and len(big) and grng.random() < 0.8:
+                # next to an existing segment (any side): a neighbour inside its Kron / circular apertures
+                by_, bx_ = big[grng.randrange(len(big))]
+                y0 = min(max(int(by_) + grng.randint(-7, 7), 1), ny - h - 1)
+                x0 = min(max(int(bx_) + grng.randint(-7, 7), 1), nx - w - 1)
             if names.index(name) < 2:       # flush with one of the four edges (segment touches the first/last row/column)
                 side = grng.choice(['left', 'right', 'bottom', 'top'])
                 y0 = 0 if side == 'bottom' else (ny - h if side == 'top' else y0)
@@ -968,7 +974,7 @@ def g_source_catalog(sc, T, R, grng):
     conv = convolve(d, Gaussian2DKernel(1.2, x_size=5, y_size=5), boundary='fill', fill_value=0.0)
     opts = dict(use_error=grng.random() < 0.8, use_mask=grng.random() < 0.7, use_bkg=grng.random() < 0.5,
                 use_conv=grng.random() < 0.5, localbkg_width=grng.choice([0, 0, 6, 10]),
-                apermask_method=grng.choice(['correct', 'mask', 'none']),
+                apermask_method=grng.choice(['correct', 'correct', 'mask', 'none']),
                 kron_params=grng.choice([(2.5, 1.4, 0.0), (2.0, 1.0, 0.0), (2.5, 1.4, 3.0)]))
     kw = dict(localbkg_width=opts['localbkg_width'], apermask_method=opts['apermask_method'],
               kron_params=opts['kron_params'], progress_bar=False)
@@ -1060,7 +1066,7 @@ def g_source_catalog(sc, T, R, grng):
             R.ok('SourceCatalog', f'fluxfrac_radius({frac}) unchanged',
                  same(np.atleast_1d(f1)[ff_sel], np.atleast_1d(f0)[ff_sel], False, rtol=1e-6, atol=1e-6),
                  lambda: dict(det(), original=js(f0), transformed=js(f1)))
-    rr = grng.uniform(2.0, 5.0)
+    rr = grng.uniform(2.0, 9.0)
     circ_sel = np.array([bool(np.isfinite(xc[k])) and lb_sel[k] and ins(CircularAperture((xc[k], yc[k]), rr)) if
                          np.isfinite(xc[k]) else False for k in range(n)])
     interior = circ_sel
@@ -1638,7 +1644,7 @@ def run(ctx):
                       found_input=False)
     ctx.sample({'lattice_case': descs[0]})
     # ---- metamorphic relations on the real API
-    nscenes = 15 if quick else 60
+    nscenes = 13 if quick else 60
     nshifts = 3 if quick else 5
     per_sig = {}
 
